@@ -1,8 +1,15 @@
-"""C33 -- violations are reported once and in source order.
-   Function under contract: sqlfluff.core.linter.linted_file:LintedFile.deduplicate_in_source_space
+"""C33 -- violations are reported once and in source order.   Under contract (pyvc):
+   sqlfluff.core.linter.linted_file:LintedFile.deduplicate_in_source_space   (no two results share a signature, sorted, nothing lost)
+   sqlfluff.core.linter.linter:Linter.lint_parsed#violations-flow             (region contract: on EVERY path the list handed to
+                                                                               LintedFile(...) is once-and-ordered)
+   sqlfluff.core.errors:SQLBaseError.source_signature#definition              (signature of plain violations = source-space tuple)
+Bounded (contracts/c33_bounded.py, real lint runs over generated Jinja templates; labelled, not proofs):
+   the contract of SQLLintError.source_signature (same in source space => equal signature; independent of templated positions /
+   identity) and the end-to-end statement on Linter.lint_string in lint and fix mode.
 """
-from pyvc.dsl import contract, spec, implies, ref_class
-from pyvc.ty import INT, BOOL, TList, TSet, TOpaque, Text
+from pyvc.dsl import contract, spec, implies, ref_class, rec_class
+from pyvc.dsl import external as _external, inline as _inline
+from pyvc.ty import INT, BOOL, TList, TSet, TOpaque, Text, TTuple, TOpt, SINK
 from pyvc import replay as _replay
 
 PROP = "C33"
@@ -65,12 +72,256 @@ class deduplicate_in_source_space:
             and all(any(sig(violations[k]) == s for k in range(0, _i)) for s in dedupe_buffer))
 
 
-TRUSTED = ["every override of SQLBaseError.source_signature is a deterministic, effect-free function of the object"]
-NOT_COVERED = ["the data-flow fact that Linter.lint_parsed passes the concatenation over all variants through this function "
-               "is checked syntactically (EXTRA below), not by symbolic execution of lint_parsed"]
+
+# ------------------------------------------------------------------ the signature of a plain (non-lint) violation
+# TMP / LXR / PRS / noqa-parse violations use SQLBaseError.source_signature: proved to be exactly the tuple of the source-space
+# attributes (rule code, source line, source position, description) -- so two such violations that are the same in source
+# space have equal signatures, and nothing else (identity, flags) enters.  The override SQLLintError.source_signature (nested
+# generator expressions, three nested loops) is outside what pyvc executes: its contract is checked dynamically on real
+# violations (contracts/c33_bounded.py: signature_contract), labelled bounded.
+@spec(uninterpreted=True)
+def code_of(v: SQLBaseError) -> Text:
+    """the rule code of a violation (TMP, PRS, LXR, a rule's code): a function of the object"""
+    return v.rule_code()
+
+
+@spec(uninterpreted=True)
+def desc_of(v: SQLBaseError) -> Text:
+    return v.desc()
+
+
+@_external("sqlfluff.core.errors:SQLBaseError.rule_code", PROP)
+class rule_code:
+    types = {"self": SQLBaseError}
+    ret = Text
+
+    def ensures(self, result):
+        return result == code_of(self)
+
+
+@_external("sqlfluff.core.errors:SQLBaseError.desc", PROP)
+class desc:
+    types = {"self": SQLBaseError}
+    ret = Text
+
+    def ensures(self, result):
+        return result == desc_of(self)
+
+
+_inline("sqlfluff.core.errors:SQLBaseError.check_tuple")
+
+
+@contract("sqlfluff.core.errors:SQLBaseError.source_signature#definition", PROP)
+class base_source_signature:
+    types = {"self": SQLBaseError}
+    ret = TTuple(TTuple(Text, INT, INT), Text)
+
+    def ensures(self, result):
+        return result == ((code_of(self), self.line_no, self.line_pos), desc_of(self))
+
+
+# ------------------------------------------------------------------ the call site: Linter.lint_parsed (region contract)
+from .types import TemplatedFile, FixPatch  # noqa: E402
+from sqlfluff.core.linter.linter import Linter as _LinterCls  # noqa: E402  (value of `cls`)
+from sqlfluff.core.rules.noqa import IgnoreMask as _IgnoreMaskCls  # noqa: E402
+
+FluffConfig = ref_class("sqlfluff.core.config.fluffconfig:FluffConfig")
+BaseSegment = ref_class("sqlfluff.core.parser.segments.base:BaseSegment")
+IgnoreMask = ref_class("sqlfluff.core.rules.noqa:IgnoreMask")
+FileTimings = ref_class("sqlfluff.core.linter.linted_file:FileTimings")
+RulePack = ref_class("sqlfluff.core.rules.base:RulePack", reference_map=SINK)
+ref_class("sqlfluff.core.errors:SQLBaseError", ignore=BOOL, warning=BOOL)
+# a NamedTuple, but the code compares variants by identity (`alternate_variant is root_variant`): declared as heap objects
+ParsedVariant = ref_class("sqlfluff.core.linter.common:ParsedVariant", templated_file=TemplatedFile, tree=TOpt(BaseSegment))
+ParsedString = rec_class("sqlfluff.core.linter.common:ParsedString", parsed_variants=TList(ParsedVariant),
+                         templating_violations=TList(SQLBaseError), time_dict=SINK, config=FluffConfig, fname=Text,
+                         source_str=Text)
+LintedFile = rec_class("sqlfluff.core.linter.linted_file:LintedFile", path=Text, violations=TList(SQLBaseError),
+                       timings=TOpt(FileTimings), tree=TOpt(BaseSegment), ignore_mask=TOpt(IgnoreMask),
+                       templated_file=TOpt(TemplatedFile), encoding=Text, source_patches=TOpt(TList(FixPatch)))
+
+
+@_external("sqlfluff.core.linter.common:ParsedVariant.violations", PROP)
+class variant_violations:
+    types = {"self": ParsedVariant}
+    ret = TList(SQLBaseError)
+
+    def ensures(self, result):
+        return True
+
+
+@_external("sqlfluff.core.linter.linter:Linter.lint_fix_parsed", PROP)
+class lint_fix_parsed:
+    """havoc: any tree, any list of violations, any mask"""
+    types = {"cls": _LinterCls, "tree": BaseSegment, "config": FluffConfig, "rule_pack": RulePack, "fix": BOOL, "fname": TOpt(Text),
+             "templated_file": TOpt(TemplatedFile), "formatter": TOpt(SINK)}
+    ret = TTuple(BaseSegment, TList(SQLBaseError), TOpt(IgnoreMask), SINK)
+
+    def ensures(cls, tree, config, rule_pack, fix, fname, templated_file, formatter, result):
+        return True
+
+
+@_external("sqlfluff.core.linter.patch:generate_source_patches", PROP)
+class generate_source_patches:
+    types = {"tree": BaseSegment, "templated_file": TemplatedFile}
+    ret = TList(FixPatch)
+
+    def ensures(tree, templated_file, result):
+        return True
+
+
+@_external("sqlfluff.core.linter.patch:merge_source_patches", PROP)
+class merge_source_patches:
+    types = {"variant_patches": TList(TList(FixPatch))}
+    ret = TList(FixPatch)
+
+    def ensures(variant_patches, result):
+        return True
+
+
+@_external("sqlfluff.core.config.fluffconfig:FluffConfig.get", PROP)
+class config_get:
+    types = {"self": FluffConfig, "val": Text, "section": Text}
+    ret = SINK
+
+    def ensures(self, val, section="core", default=None, result=None):
+        return True
+
+
+@_external("sqlfluff.core.linter.linter:Linter.allowed_rule_ref_map", PROP)
+class allowed_rule_ref_map:
+    types = {"cls": _LinterCls, "reference_map": SINK, "disable_noqa_except": SINK}
+    ret = SINK
+
+    def ensures(cls, reference_map, disable_noqa_except, result):
+        return True
+
+
+@_external("sqlfluff.core.rules.noqa:IgnoreMask.from_source_with_dialect", PROP)
+class from_source_with_dialect:
+    types = {"cls": _IgnoreMaskCls, "source": Text, "dialect": SINK, "reference_map": SINK}
+    ret = TTuple(IgnoreMask, TList(SQLBaseError))
+
+    def ensures(cls, source, dialect, reference_map, result):
+        return True
+
+
+@_external("sqlfluff.core.errors:SQLBaseError.ignore_if_in", PROP)
+class ignore_if_in:
+    types = {"self": SQLBaseError, "ignore_iterable": SINK}
+    modifies = ["self.ignore"]
+
+    def ensures(self, ignore_iterable):
+        return True
+
+
+@_external("sqlfluff.core.errors:SQLBaseError.warning_if_in", PROP)
+class warning_if_in:
+    types = {"self": SQLBaseError, "warning_iterable": SINK}
+    modifies = ["self.warning"]
+
+    def ensures(self, warning_iterable):
+        return True
+
+
+@_external("sqlfluff.core.linter.linted_file:FileTimings", PROP)
+class file_timings_init:
+    types = {"self": FileTimings, "step_timings": SINK, "rule_timings": SINK}
+
+    def ensures(self, step_timings, rule_timings):
+        return True
+
+
+@_external("time:monotonic", PROP)
+class monotonic:
+    types = {}
+    ret = SINK
+
+    def ensures(result):
+        return True
+
+
+@_external("sqlfluff.core.linter.linted_file:LintedFile.get_violations", PROP)
+class get_violations:
+    """(C20) a filtered view: returns a new list, the file object is immutable"""
+    types = {"self": LintedFile, "rules": SINK, "types": SINK, "filter_ignore": BOOL, "filter_warning": BOOL,
+             "warn_unused_ignores": BOOL, "fixable": SINK}
+    ret = TList(SQLBaseError)
+
+    def ensures(self, rules=None, types=None, filter_ignore=True, filter_warning=True, warn_unused_ignores=False, fixable=None,
+                result=None):
+        return True
+
+
+@spec
+def once_and_ordered(vs):
+    """the property, on the list of violations a file reports: no two entries are the same violation in source space
+    (equal signatures), and the entries are in source order (line, then position)"""
+    return (all(sig(vs[i]) != sig(vs[j]) for i in range(len(vs)) for j in range(i + 1, len(vs)))
+            and all((vs[i].line_no, vs[i].line_pos) <= (vs[j].line_no, vs[j].line_pos)
+                    for i in range(len(vs)) for j in range(i + 1, len(vs))))
+
+
+@contract("sqlfluff.core.linter.linter:Linter.lint_parsed#violations-flow", PROP)
+class lint_parsed_flow:
+    region = ("violations: list[SQLBaseError] = list(parsed.templating_violations)", "if formatter:")
+    region_params = ["cls", "parsed", "rule_pack", "fix", "formatter", "encoding", "time_dict", "tree", "templated_file",
+                     "merged_source_patches", "t0", "root_variant"]
+    types = {"cls": _LinterCls, "parsed": ParsedString, "rule_pack": RulePack, "fix": BOOL, "formatter": TOpt(SINK),
+             "encoding": Text, "time_dict": SINK, "tree": TOpt(BaseSegment), "templated_file": TOpt(TemplatedFile),
+             "merged_source_patches": TOpt(TList(FixPatch)), "t0": SINK, "root_variant": TOpt(ParsedVariant),
+             "violations": TList(SQLBaseError), "variant_source_patches": TList(TList(FixPatch)),
+             "ignore_mask": TOpt(IgnoreMask), "rule_timings": SINK}
+    ghost_out = {"linted_file": LintedFile}
+    raises = {"AssertionError": None}
+
+    def ensures(parsed, linted_file):
+        return once_and_ordered(linted_file.violations)
+
+    def inv_1(violations):
+        return True
+
+    def inv_2(violations):
+        return True
+
+
+# ------------------------------------------------------------------ bounded stand-ins (real lint runs; labelled, not proofs)
+from .c33_bounded import signature_contract, end_to_end  # noqa: E402
+
+BOUNDED = [signature_contract, end_to_end]
+
+TRUSTED = ["every override of SQLBaseError.source_signature is a deterministic, effect-free function of the object (the symbol `sig`); "
+           "for plain violations this is proved (source_signature#definition), for SQLLintError it is checked on real violations "
+           "(bounded: C33/source_signature/R1..R3)",
+           "region contract lint_parsed#violations-flow: Linter.lint_fix_parsed, ParsedVariant.violations, "
+           "IgnoreMask.from_source_with_dialect, generate/merge_source_patches, FluffConfig.get are havocked (any result, no effect on "
+           "violation objects); SQLBaseError.ignore_if_in / warning_if_in write only .ignore / .warning (which no signature reads)",
+           "engine: a flattening comprehension whose inner iterable is a call (`for variant in ... for violation in "
+           "variant.violations()`) is over-approximated by an unconstrained list"]
+NOT_COVERED = ["Linter.lint_parsed before the region (root_variant selection) and after it (formatter dispatch, `return linted_file`): "
+               "the end-to-end stand-in observes the returned LintedFile",
+               "completeness (no distinct violation is lost between collection and LintedFile) is proved for "
+               "deduplicate_in_source_space only, not stated for lint_parsed: the property does not demand it",
+               "SQLLintError.source_signature is not executed symbolically (nested generator expressions): bounded contract only",
+               "other producers of LintedFile objects (none in /repo/src besides lint_parsed) and re-ordering by output formatters"]
 MUTANTS = [
     ("no_dedupe", "sqlfluff/core/linter/linted_file.py", "if signature not in dedupe_buffer:", "if True:"),
     ("sort_by_pos_only", "sqlfluff/core/linter/linted_file.py", "key=lambda v: (v.line_no, v.line_pos))", "key=lambda v: (v.line_pos, v.line_no))"),
     ("no_sort", "sqlfluff/core/linter/linted_file.py", "return sorted(new_violations, key=lambda v: (v.line_no, v.line_pos))", "return new_violations"),
     ("keep_last", "sqlfluff/core/linter/linted_file.py", "                new_violations.append(v)\n                dedupe_buffer.add(signature)", "                new_violations.append(v)"),
+    # the call site
+    ("call_site_no_dedupe", "sqlfluff/core/linter/linter.py", "            LintedFile.deduplicate_in_source_space(violations),\n", "            violations,\n"),
+    ("call_site_sorted_only", "sqlfluff/core/linter/linter.py", "            LintedFile.deduplicate_in_source_space(violations),\n",
+     "            sorted(violations, key=lambda v: (v.line_no, v.line_pos)),\n"),
+    ("call_site_dedupe_only_with_root_variant", "sqlfluff/core/linter/linter.py", "            LintedFile.deduplicate_in_source_space(violations),\n",
+     "            (LintedFile.deduplicate_in_source_space(violations) if root_variant else violations),\n"),
+    ("call_site_templating_violations_twice", "sqlfluff/core/linter/linter.py", "            LintedFile.deduplicate_in_source_space(violations),\n",
+     "            list(parsed.templating_violations) + LintedFile.deduplicate_in_source_space(violations),\n"),
+    # the signature
+    ("sig_delete_fix_by_anchor", "sqlfluff/core/errors.py", "tuple(e.raw for e in f.edit) if f.edit else None for f in self.fixes",
+     "tuple(e.raw for e in f.edit) if f.edit else (f.edit_type, f.anchor) for f in self.fixes"),
+    ("sig_templated_slice", "sqlfluff/core/errors.py", "                            source_edit.source_slice.stop,\n", "                            source_edit.templated_slice.stop,\n"),
+    ("sig_identity", "sqlfluff/core/errors.py", "        return (self.check_tuple(), self.description, fix_raws, tuple(_source_fixes))",
+     "        return (self.check_tuple(), self.description, fix_raws, tuple(_source_fixes), id(self))"),
+    ("base_sig_identity", "sqlfluff/core/errors.py", "        return (self.check_tuple(), self.desc())", "        return (self.check_tuple(), self.desc(), id(self))"),
 ]
